@@ -884,6 +884,13 @@ def _closed_violations(data):
     if len(ov) != len(set(x.lower() for x in ov)):
         bad.append("duplicate Override entries")
     overrides = {e.get("PartName").lower(): e.get("ContentType") for e in ct.findall(ns + "Override")}
+    dx = [e.get("Extension").lower() for e in ct.findall(ns + "Default")]
+    if len(dx) != len(set(dx)):
+        bad.append("duplicate Default entries: %s" % sorted(x for x in set(dx) if dx.count(x) > 1))
+    lower_names = {("/" + n).lower() for n in names}
+    phantom = sorted(x for x in ov if x.lower() not in lower_names)
+    if phantom:
+        bad.append("Override entries for parts the file does not contain: %s" % phantom[:3])
     for n in names:
         if n == "[Content_Types].xml":
             continue
@@ -1127,6 +1134,32 @@ def _native_histories(tier="quick", seed=0):
         prs.save(buf)
         return buf.getvalue()
 
+    def odd_names_deck():
+        """media and slide parts named the way users name files (a blank, a percent sign, an accent, brackets): renamed in the zip -- member,
+        relationship targets and Override entries alike, each spelled verbatim"""
+        import re
+        import zipfile
+
+        prs = Presentation()
+        for i in range(2):
+            sl = prs.slides.add_slide(prs.slide_layouts[6])
+            sl.shapes.add_picture(io.BytesIO(png((20 * i, 3, 4))), 0, 0)
+        buf = io.BytesIO()
+        prs.save(buf)
+        ren = {"image1.png": "company logo.png", "image2.png": "100% \u00e9t\u00e9 [2].png", "slide2.xml": "my slide (2).xml"}
+        out = io.BytesIO()
+        with zipfile.ZipFile(io.BytesIO(buf.getvalue())) as zin, zipfile.ZipFile(out, "w", zipfile.ZIP_DEFLATED) as z:
+            for n in zin.namelist():
+                d = zin.read(n)
+                n2 = n
+                for a_, b_ in ren.items():
+                    if n.endswith("/" + a_) or n.endswith("/" + a_ + ".rels"):
+                        n2 = n.replace(a_, b_)
+                    if n.endswith((".rels", "[Content_Types].xml")):
+                        d = d.replace(("/" + a_ + '"').encode(), ("/" + b_ + '"').encode())
+                z.writestr(n2, d)
+        return out.getvalue()
+
     def odd_rids_deck():
         """relationship ids as other producers write them (Open XML SDK 'R<hex>', zero-padded, unprefixed, mixed): re-spelled in the zip,
         in every .rels item and at every reference in the part XML"""
@@ -1160,7 +1193,7 @@ def _native_histories(tier="quick", seed=0):
     N = 40 if tier == "quick" else 600
     L = 10 if tier == "quick" else 16
     perms = [(7, 3, 9), (1, 4, 3), (2, 1, 3), (1, 3, 2), (3, 2, 1), (2, 3, 4), (1, 2, 4), (1, 5, 3, 4)]
-    starts = [("default_template", None), ("unused_layout_with_picture", layout_picture_deck()), ("relationship_ids_in_other_spellings", odd_rids_deck())] + [("slide_parts_named_%s" % "_".join(map(str, q)), out_of_order_deck(q)) for q in perms]
+    starts = [("default_template", None), ("unused_layout_with_picture", layout_picture_deck()), ("relationship_ids_in_other_spellings", odd_rids_deck()), ("parts_named_like_user_files", odd_names_deck())] + [("slide_parts_named_%s" % "_".join(map(str, q)), out_of_order_deck(q)) for q in perms]
     for label, start in starts:
         rnd = random.Random(seed * 7919 + (1 if start else 0))
         bad = None
